@@ -228,6 +228,8 @@ ARGV_TEMPLATES = [
     dict(name="stereo-u1", argv=["-c", "2", "-u", "1"]),
     dict(name="stereo-mix", argv=["-c", "2", "-u", "mix", "-e", "75"]),
     dict(name="threshold", argv=["-e", "85"]),
+    dict(name="stdin-window-0.2", argv=["-a", "0.2", "-n", "0.2", "-m", "0.6", "-s", "0.2"], stdin=True),
+    dict(name="file-window-0.2", argv=["-a", "0.2", "-n", "0.2", "-m", "0.6", "-s", "0.2"]),
     dict(name="min-dur", argv=["-n", "0.2", "-s", "0"]),
 ]
 E2E_K = {"quick": 5, "thorough": 7}
@@ -265,8 +267,8 @@ def e2e_expected(core, tpl, data, util):
     argv = tpl["argv"]
     def opt(o, default, conv=float):
         return conv(argv[argv.index(o) + 1]) if o in argv else default
-    kw = dict(min_dur=opt("-n", 0.1), max_dur=0.3, max_silence=opt("-s", 0.1), drop_trailing_silence="-d" in argv, strict_min_dur="-R" in argv,
-              sr=10, sw=2, ch=opt("-c", 1, int), analysis_window=0.1, energy_threshold=opt("-e", 50.0))
+    kw = dict(min_dur=opt("-n", 0.1), max_dur=opt("-m", 0.3), max_silence=opt("-s", 0.1), drop_trailing_silence="-d" in argv, strict_min_dur="-R" in argv,
+              sr=10, sw=2, ch=opt("-c", 1, int), analysis_window=opt("-a", 0.1), energy_threshold=opt("-e", 50.0))
     if "-u" in argv:
         u = argv[argv.index("-u") + 1]
         kw["use_channel"] = int(u) if u.lstrip("-").isdigit() else u
